@@ -2625,7 +2625,11 @@ class CondTr(Generic[X, R], Trace[X, R]):
         return merged
 
     def get_args(self) -> Any:
-        return (self.check, *self.trs[0].get_args())
+        # Standard (args, kwargs) storage format, with the condition as the
+        # first positional argument, as `Cond.<method>(check, *args, **kwargs)`
+        # receives it.
+        branch_args, branch_kwargs = self.trs[0].get_args()
+        return ((self.check, *branch_args), branch_kwargs)
 
     def get_retval(self) -> R:
         return jnp.where(self.check, *map(get_retval, self.trs))
